@@ -172,8 +172,10 @@ class InjectionTracker:
 
         new_id = effective_id
         for packet_id in reversed(self.injections):
+            # Injected after this packet, doesn't affect its ID. Can't bail out here,
+            # we're walking newest to oldest and older injections still count.
             if packet_id > new_id:
-                break
+                continue
             new_id -= 1
         new_id -= self._injection_base
         if effective_id != new_id:
